@@ -163,6 +163,17 @@ CHECKS = {
         "sslproto of CPython 3.12.1",
         "DESIGN.md §2 C11",
     ),
+    "C16": (
+        "exploration",
+        "exhaustive small redirect graphs + Hypothesis random graphs; reference graph walk; connection log and "
+        "request lines recorded by scripted TLS peers",
+        "All redirect graphs over <=2/3 URLs (and random ones over <=8) on three scripted hosts are fetched by the real "
+        "GeminiClient: connections <= max_redirects+1, only gemini:// request lines, follow-off returns the first "
+        "response unchanged after one connection, chains within the limit reach their final response, loops and longer "
+        "chains raise, and a changed pin on any hop raises before any later hop is contacted.",
+        "odd targets (other schemes, relative, malformed) are grey except for 'never requested'",
+        "DESIGN.md §2 C16",
+    ),
 }
 
 PENDING_REASON = "check not built yet in this round (work in progress; technique applies, see DESIGN.md)"
